@@ -9,24 +9,28 @@ from __future__ import annotations
 import functools
 import importlib
 import itertools
+import json
 import signal
 import sys
 from contextlib import contextmanager
+from pathlib import Path
 
 ID = "C07"
 LEVEL_TEXT = ("Theorems for all inputs: Griffe's deque-based c3linear_merge equals CPython's index-vector pmerge on every list of lists "
               "(same result, same failures), terminates, and satisfies the C3 conditions (no duplicates, exactly the input elements, every "
               "input order preserved); Class._mro equals CPython's mro_implementation (fast path, duplicate-base check, pmerge) on every "
               "table a Python program can express, of any size; on arbitrary tables its recursion stops within #classes+1 levels and a class "
-              "that reaches a cycle is reported uncomputable (and 'cycle detected' is only said when there is one); inherited_members = nearest "
+              "that reaches a cycle is reported uncomputable (and 'cycle detected' is only said when there is one); eliding `object` from CPython's "
+              "lists is sound (merge-level and table-level theorems); inherited_members = nearest "
               "definition along the MRO, never a declared name; all_members = CPython's lookup through tp_mro; inherited aliases live under the "
               "subclass's path. The model is tied to the code by exhaustive hierarchies (N<=5 quick, N<=6 thorough, <=3 ordered bases), random "
               "hierarchies with members across modules, packages loaded from generated source through imports/aliases, cyclic and arbitrary tables, "
               "and raw list-of-lists merges, each compared three ways (model, Griffe, real type()).")
 LEVEL_NOTE = ("Trusted: Coq kernel, extraction, the table<->Griffe-object / table<->source abstraction in this module, CPython's type() as authority. "
-              "Modelled rather than verified: `object` is elided from every MRO (checked by (O) against real classes); classes are identified with "
+              "`object` is elided from the working spec model, but the elision is itself a theorem (C07_mro_object_elision / C07_merge_object_elision) "
+              "and the spec with `object` spelled out is what (O) compares with real __mro__. Modelled rather than verified: classes are identified with "
               "their paths (the `seen` tuple holds paths); name resolution of base expressions (Expr.canonical_path, alias resolution) is exercised "
-              "by the source stream but not modelled -- the model starts from resolved bases. All 12 theorems are closed under the global context.")
+              "by the source stream but not modelled -- the model starts from resolved bases. All 14 theorems are closed under the global context.")
 MODEL = ("Model.C07_mro", "run_C07")
 COQ_TARGETS = ["Proofs/C07_mro.vo"]
 RULE = ("(1) every hierarchy of N<=5 (quick) / N<=6 (thorough) classes where class i takes 0..3 ordered distinct bases among classes 0..i-1 "
@@ -35,13 +39,15 @@ RULE = ("(1) every hierarchy of N<=5 (quick) / N<=6 (thorough) classes where cla
         "(3) packages rendered to source with 6 import styles (from-import, as-alias, import pkg.mod, from pkg import mod, import as, re-export via "
         "__init__), loaded with griffe.load and imported for real; (4) arbitrary tables: exhaustive N<=3 with any <=3 bases incl. self/forward, random "
         "N<=6 with back edges, unresolvable and non-class bases; (5) cyclic tables as source, one module per class; (6) raw c3linear_merge calls on "
-        "lists of lists with repeats (exhaustive small + random). non-trivial = the class has >=2 bases, or is uncomputable, or inherits a member; "
+        "lists of lists with repeats (exhaustive small + random); (7) load histories: 2-3 generated packages whose classes inherit across packages "
+        "(from-import, re-export via __init__, attribute-style base), loaded into ONE fresh GriffeLoader in every order, mro()/inherited_members queried "
+        "between loads (compared with the model on the partial collection), final answers compared with the real import of all packages and across orders. non-trivial = the class has >=2 bases, or is uncomputable, or inherits a member; "
         "distinct by canonical case value")
 TRUSTED = ["abstraction: a table row [path, bases, members] is built as griffe.Class(name, bases=[paths]) inside griffe.Module objects of one "
            "ModulesCollection, or rendered to Python source; the same row is built with type(name, bases, dict) for the authority",
            "functools._c3_merge (CPython's pure-Python C3 merge used by singledispatch) is the authority for merges of raw lists that no class "
            "statement can produce; typeobject.c's pmerge itself is only reachable through type()"]
-ASSUMPTIONS = ["`object` is elided: the spec model gives a class without bases the MRO [itself]; real MROs are compared with the leading class and the trailing `object` removed",
+ASSUMPTIONS = ["`object` never appears as an explicit base in the generated hierarchies (Griffe would drop it as unresolvable; CPython allows `class C(A, object)`)",
                "items merged by c3linear_merge are Class objects, always truthy (Object.__bool__ returns True), so `if head and ...` only filters the None head of an empty deque",
                "a class is identified by its path (Class._mro's `seen` holds paths); tables never contain two classes with one path",
                "C07_mro_eq_cpython and C07_all_members_eq_getattr are stated for ordered tables (every base created before the class): the hierarchies Python source can express; "
@@ -212,7 +218,7 @@ def check_classes(ctx, stream, table, objs, which, model_rows, extra_case=None):
         if extra_case:
             case.update(extra_case)
         obs = observe(objs[c])
-        g_model, py_model, orderedb, inh_model, all_model, getattr_model = mrow
+        g_model, py_model, orderedb, inh_model, all_model, getattr_model, pyobj_model = mrow
         # ---- (C) model vs Griffe
         g_impl = obs["mro"]
         g_impl_ids = ["ok", [ids.get(p, -1) for p in g_impl[1]]] if g_impl[0] == "ok" else g_impl
@@ -250,6 +256,9 @@ def check_classes(ctx, stream, table, objs, which, model_rows, extra_case=None):
             expect = ["err", "inconsistent"] if o is None else ["ok", [c] + o["mro"]]
             if py_model != expect:
                 ctx.tie_failure("oracle", "cpython_mro(model) vs type().__mro__", {"model": py_model, "cpython": expect}, case)
+            expect_obj = expect if o is None else ["ok", expect[1] + [len(table)]]
+            if pyobj_model != expect_obj:
+                ctx.tie_failure("oracle", "cpython_mro_obj(model) vs type().__mro__ including object", {"model": pyobj_model, "cpython": expect_obj}, case)
             if o is not None:
                 ga = {name: (v[0] if v else None) for name, v in getattr_model}
                 for name in ga:
@@ -360,12 +369,15 @@ def stream_exhaustive(ctx, maxn, with_model=True):
             ctx.observe("griffe_result", g[0] if g[0] != "err" else "err:" + g[1])
             g_ids = ["ok", [int(p[3:]) for p in g[1]]] if g[0] == "ok" else g
             if mo is not None:
-                g_model, py_model, orderedb = mo
+                g_model, py_model, orderedb, pyobj_model = mo
                 if g_model != g_ids:
                     ctx.tie_failure("correspondence", "griffe_mro(model) vs Class.mro()", {"model": g_model, "impl": g}, case)
                 expect = ["err", "inconsistent"] if py is None else ["ok", [c] + py]
                 if py_model != expect or orderedb != 1:
                     ctx.tie_failure("oracle", "cpython_mro(model) vs type().__mro__", {"model": py_model, "cpython": expect}, case)
+                expect_obj = ["err", "inconsistent"] if py is None else ["ok", [c] + py + [len(bases_of)]]
+                if pyobj_model != expect_obj:
+                    ctx.tie_failure("oracle", "cpython_mro_obj(model) vs type().__mro__ including object", {"model": pyobj_model, "cpython": expect_obj}, case)
             if (py is None and g[0] != "err") or (py is not None and g_ids != ["ok", py]):
                 ctx.property_failure(case, {"what": "MRO differs from CPython's", "griffe": g, "cpython": "TypeError" if py is None else [f"m.K{i}" for i in py]})
         buf.clear()
@@ -411,9 +423,13 @@ STYLES = ["from", "from-as", "import-dotted", "from-pkg-import-mod", "import-as"
 
 
 def render_package(rng, pkg, table):
-    """table is ordered, class i lives in module m<j> with j non-decreasing in i.  Returns {relative file: source}, refs used."""
-    n = len(table)
-    mod_of = [int(row[0].split(".")[-2][1:]) for row in table]
+    """table is ordered; class i lives in module m<j> (j non-decreasing in i), at top level (path pkg.mj.Ki) or nested in
+    a holder class (path pkg.mj.Hi.Ki).  Returns {relative file: source}, module-level import aliases of classes, styles used."""
+    parts = [row[0].split(".") for row in table]
+    mod_of = [int(p[1][1:]) for p in parts]
+    nested = [len(p) == 4 for p in parts]
+    top = [p[2] for p in parts]                 # the module-level name that leads to the class: Ki or Hi
+    suffix = [".".join([""] + p[3:]) for p in parts]
     nmod = max(mod_of) + 1
     reexported = set()
     bodies = {j: [] for j in range(nmod)}
@@ -427,44 +443,49 @@ def render_package(rng, pkg, table):
         for b in bases:
             jb = mod_of[b]
             if jb == j:
-                refs.append(f"K{b}")
+                refs.append(top[b] + suffix[b])
                 continue
             if (j, b) not in local:
                 st = rng.choice(STYLES)
-                styles_used.append(st)
+                styles_used.append(st + ("/nested" if nested[b] else ""))
                 if st == "from":
-                    imports[j].append(f"from {pkg}.m{jb} import K{b}")
-                    local[(j, b)] = f"K{b}"
-                    alias_views.append((j, f"K{b}", b))
+                    imports[j].append(f"from {pkg}.m{jb} import {top[b]}")
+                    local[(j, b)] = top[b] + suffix[b]
+                    if not nested[b]:
+                        alias_views.append((j, top[b], b))
                 elif st == "from-as":
-                    imports[j].append(f"from {pkg}.m{jb} import K{b} as Z{b}")
-                    local[(j, b)] = f"Z{b}"
-                    alias_views.append((j, f"Z{b}", b))
+                    imports[j].append(f"from {pkg}.m{jb} import {top[b]} as Z{b}")
+                    local[(j, b)] = f"Z{b}" + suffix[b]
+                    if not nested[b]:
+                        alias_views.append((j, f"Z{b}", b))
                 elif st == "import-dotted":
                     imports[j].append(f"import {pkg}.m{jb}")
-                    local[(j, b)] = f"{pkg}.m{jb}.K{b}"
+                    local[(j, b)] = f"{pkg}.m{jb}.{top[b]}{suffix[b]}"
                 elif st == "from-pkg-import-mod":
                     imports[j].append(f"from {pkg} import m{jb}" if rng.random() < 0.5 else f"from . import m{jb}")
-                    local[(j, b)] = f"m{jb}.K{b}"
+                    local[(j, b)] = f"m{jb}.{top[b]}{suffix[b]}"
                 elif st == "import-as":
                     imports[j].append(f"import {pkg}.m{jb} as q{jb}")
-                    local[(j, b)] = f"q{jb}.K{b}"
+                    local[(j, b)] = f"q{jb}.{top[b]}{suffix[b]}"
                 else:
                     reexported.add(b)
-                    imports[j].append(f"from {pkg} import K{b}")
-                    local[(j, b)] = f"K{b}"
-                    alias_views.append((j, f"K{b}", b))
+                    imports[j].append(f"from {pkg} import {top[b]}")
+                    local[(j, b)] = top[b] + suffix[b]
+                    if not nested[b]:
+                        alias_views.append((j, top[b], b))
             refs.append(local[(j, b)])
-        lines = [f"class K{i}({', '.join(refs)}):" if refs else f"class K{i}:"]
+        ind = "    " if nested[i] else ""
+        lines = [f"class H{i}:"] if nested[i] else []
+        lines.append(f"{ind}class K{i}({', '.join(refs)}):" if refs else f"{ind}class K{i}:")
         for name in members:
             if name[0] == "f":
-                lines.append(f"    def {name}(self): return ({i}, '{name}')")
+                lines.append(f"{ind}    def {name}(self): return ({i}, '{name}')")
             elif name[0] == "N":
-                lines.append(f"    class {name}: pass")
+                lines.append(f"{ind}    class {name}: pass")
             else:
-                lines.append(f"    {name} = ({i}, '{name}')")
+                lines.append(f"{ind}    {name} = ({i}, '{name}')")
         if not members:
-            lines.append("    pass")
+            lines.append(f"{ind}    pass")
         bodies[j].append("\n".join(lines))
     files = {}
     init = []
@@ -475,7 +496,7 @@ def render_package(rng, pkg, table):
                 seen.append(ln)
         files[f"m{j}.py"] = "\n".join(seen + [""] + bodies[j]) + "\n"
         ex = [b for b in sorted(reexported) if mod_of[b] == j]
-        init.append(f"from {pkg}.m{j} import " + ", ".join(f"K{b}" for b in ex) if ex else f"import {pkg}.m{j}")
+        init.append(f"from {pkg}.m{j} import " + ", ".join(top[b] for b in ex) if ex else f"import {pkg}.m{j}")
     files["__init__.py"] = "\n".join(init) + "\n"
     return files, alias_views, styles_used
 
@@ -498,8 +519,10 @@ def real_import(root, pkg, table):
             return "TypeError"
         out = {}
         for i, (path, _, _) in enumerate(table):
-            mod, cname = path.rsplit(".", 1)
-            k = getattr(sys.modules[mod], cname)
+            p = path.split(".")
+            k = sys.modules[".".join(p[:2])]
+            for attr in p[2:]:
+                k = getattr(k, attr)
             out[i] = [f"{x.__module__}.{x.__qualname__}" for x in k.__mro__[1:-1]]
         return out
     finally:
@@ -515,7 +538,7 @@ def stream_source(ctx, count, with_model=True):
     for k in range(count):
         pkg = f"c07p{ctx.seed % 100000}x{k}"
         table = random_ordered_table(ctx.rng, nmax=7)
-        table = [[f"{pkg}.{p}", b, m] for p, b, m in table]
+        table = [[f"{pkg}.{p}" if ctx.rng.random() < 0.8 else f"{pkg}.{p.split('.')[0]}.H{i}.K{i}", b, m] for i, (p, b, m) in enumerate(table)]
         # the source stream keeps bases distinct half of the time so that importable packages dominate
         files, alias_views, styles = render_package(ctx.rng, pkg, table)
         write_package(root, pkg, files)
@@ -528,7 +551,9 @@ def stream_source(ctx, count, with_model=True):
         except BaseException as e:  # noqa: BLE001
             if isinstance(e, KeyboardInterrupt):
                 raise
-            ctx.tie_failure("harness", "griffe.load of a generated package raised", f"{type(e).__name__}: {e}", {"files": files})
+            ctx.property_failure({"stream": "source-package", "table": table, "class": 0, "files": files},
+                                 {"what": "griffe.load raised on a valid generated package (an error escapes the MRO / inherited-members code)",
+                                  "griffe": f"{type(e).__name__}: {e}"})
             continue
         objs = [loaded[p[len(pkg) + 1:]] for p, _, _ in table]
         which = list(range(len(table)))
@@ -631,7 +656,9 @@ def stream_cyclic_source(ctx, count):
         except BaseException as e:  # noqa: BLE001
             if isinstance(e, KeyboardInterrupt):
                 raise
-            ctx.tie_failure("harness", "griffe.load of a generated cyclic package raised", f"{type(e).__name__}: {e}", {"files": files})
+            ctx.property_failure({"stream": "cyclic-source", "table": table, "class": 0, "files": files},
+                                 {"what": "griffe.load raised on a generated package with cyclic bases (must be reported as uncomputable, not raise)",
+                                  "griffe": f"{type(e).__name__}: {e}"})
             continue
         objs = [loaded[f"c{i}.K{i}"] for i in range(len(table))]
         which = list(range(len(table)))
@@ -701,6 +728,174 @@ def stream_merge(ctx):
             ctx.property_failure(case, {"what": "c3linear_merge differs from CPython's C3 merge", "griffe": g, "cpython": std})
 
 
+# ------------------------------------------------------------------------------------------------ (7) load histories: several packages, one loader, every order
+
+XSTYLES = ["from", "reexport", "attr"]
+
+
+def render_history(rng, tag, n_pkgs):
+    """Ordered table spread over n_pkgs packages (class i in package pk[i], non-decreasing); each package has one module `m`.
+    Cross-package bases are written with from-import, re-export through the base package's __init__, or attribute style."""
+    n = rng.randint(n_pkgs + 1, 6)
+    pk = sorted([rng.randrange(n_pkgs) for _ in range(n - n_pkgs)] + list(range(n_pkgs)))
+    pkgs = [f"c07h{tag}p{j}" for j in range(n_pkgs)]
+    table = []
+    for i in range(n):
+        if i == 0:
+            bases = []
+        else:
+            earlier_pkg = [b for b in range(i) if pk[b] < pk[i]]
+            k = rng.choice([1, 1, 2, 2, 3])
+            bases = rng.sample(range(i), min(k, i))
+            if earlier_pkg and not any(b in earlier_pkg for b in bases) and rng.random() < 0.8:
+                bases[rng.randrange(len(bases))] = rng.choice(earlier_pkg)      # make cross-package inheritance the norm
+                bases = list(dict.fromkeys(bases))
+            if rng.random() < 0.75:
+                bases.sort(reverse=True)
+        # a class without its own __init__ is what the built-in dataclasses extension asks all_members of at load time
+        table.append([f"{pkgs[pk[i]]}.m.K{i}", bases, random_members(rng)])
+    imports = {j: [] for j in range(n_pkgs)}
+    bodies = {j: [] for j in range(n_pkgs)}
+    reexp = {j: [] for j in range(n_pkgs)}
+    local = {}
+    styles = []
+    for i, (path, bases, members) in enumerate(table):
+        j = pk[i]
+        refs = []
+        for b in bases:
+            jb = pk[b]
+            if jb == j:
+                refs.append(f"K{b}")
+                continue
+            if (j, b) not in local:
+                st = rng.choice(XSTYLES)
+                styles.append(st)
+                if st == "from":
+                    imports[j].append(f"from {pkgs[jb]}.m import K{b}")
+                    local[(j, b)] = f"K{b}"
+                elif st == "reexport":
+                    if b not in reexp[jb]:
+                        reexp[jb].append(b)
+                    imports[j].append(f"from {pkgs[jb]} import K{b}")
+                    local[(j, b)] = f"K{b}"
+                else:
+                    imports[j].append(f"import {pkgs[jb]}.m")
+                    local[(j, b)] = f"{pkgs[jb]}.m.K{b}"
+            refs.append(local[(j, b)])
+        lines = [f"class K{i}({', '.join(refs)}):" if refs else f"class K{i}:"]
+        for name in members:
+            lines.append(f"    def {name}(self): return ({i}, '{name}')" if name[0] == "f" else
+                         (f"    class {name}: pass" if name[0] == "N" else f"    {name} = ({i}, '{name}')"))
+        if not members:
+            lines.append("    pass")
+        bodies[j].append("\n".join(lines))
+    files = {}
+    for j in range(n_pkgs):
+        imps = list(dict.fromkeys(imports[j]))
+        files[f"{pkgs[j]}/m.py"] = "\n".join(imps + [""] + bodies[j]) + "\n"
+        files[f"{pkgs[j]}/__init__.py"] = (f"from {pkgs[j]}.m import " + ", ".join(f"K{b}" for b in reexp[j]) + "\n") if reexp[j] else ""
+    return pkgs, pk, table, files, styles
+
+
+def real_import_multi(root, pkgs, table):
+    """Import all packages for real (the most derived package last).  'TypeError' or {class index: mro paths}."""
+    sys.path.insert(0, str(root))
+    try:
+        importlib.invalidate_caches()
+        try:
+            for p in pkgs:
+                importlib.import_module(p + ".m")
+        except TypeError:
+            return "TypeError"
+        out = {}
+        for i, (path, _, _) in enumerate(table):
+            mod, cname = path.rsplit(".", 1)
+            k = getattr(sys.modules[mod], cname)
+            out[i] = [f"{x.__module__}.{x.__qualname__}" for x in k.__mro__[1:-1]]
+        return out
+    finally:
+        sys.path.remove(str(root))
+        for name in [m for m in sys.modules if any(m == p or m.startswith(p + ".") for p in pkgs)]:
+            del sys.modules[name]
+
+
+def stream_histories(ctx, count, with_model=True):
+    """The property is about the hierarchy the collection holds NOW: whatever was asked of a class while one of its
+    bases' packages was not loaded yet must not stick once that package is loaded into the same loader."""
+    import griffe
+    root = ctx.scratch / "hist"
+    root.mkdir(parents=True, exist_ok=True)
+    for k in range(count):
+        n_pkgs = 2 if k % 3 else 3
+        pkgs, pk, table, files, styles = render_history(ctx.rng, f"{ctx.seed % 100000}x{k}", n_pkgs)
+        for rel, src in files.items():
+            (root / rel).parent.mkdir(parents=True, exist_ok=True)
+            (root / rel).write_text(src)
+        for st in styles:
+            ctx.observe("history_import_style", st)
+        orc = oracle_table(table)
+        real = real_import_multi(root, pkgs, table)
+        if real == "TypeError":
+            if all(o is not None for o in orc):
+                ctx.tie_failure("harness", "generated packages fail to import although the table is consistent", files)
+        else:
+            for i, o in enumerate(orc):
+                want = None if o is None else [table[x][0] for x in o["mro"]]
+                if want != real[i]:
+                    ctx.tie_failure("harness", "generated source does not mean the table", {"class": i, "import": real[i], "table": want, "files": files})
+        which = list(range(len(table)))
+        final_model = ctx.model([["class", table, c] for c in which]) if with_model else None
+        finals = {}
+        for order in itertools.permutations(range(n_pkgs)):
+            base_case = {"stream": "load-history", "table": table, "load_order": [pkgs[j] for j in order], "files": files}
+            try:
+                with watchdog(60):
+                    loader = griffe.GriffeLoader(search_paths=[str(root)])
+                    loaded = set()
+                    for step, j in enumerate(order):
+                        loader.load(pkgs[j])
+                        loaded.add(j)
+                        if step == len(order) - 1:
+                            break
+                        # ask between loads: the answers for the partial collection (unloaded bases are dropped, as the model says)
+                        sub = [i for i in which if pk[i] in loaded]
+                        renum = {i: x for x, i in enumerate(sub)}
+                        subtable = [[table[i][0], [renum.get(b, len(sub)) for b in table[i][1]], table[i][2]] for i in sub]
+                        mids = ctx.model([["class", subtable, renum[i]] for i in sub]) if with_model else [None] * len(sub)
+                        for i, mrow in zip(sub, mids):
+                            obj = loader.modules_collection[table[i][0]]
+                            g = mro_of(obj)
+                            _ = obj.inherited_members
+                            ctx.count("history_intermediate_queries")
+                            if mrow is not None:
+                                ids = {row[0]: x for x, row in enumerate(subtable)}
+                                g_ids = ["ok", [ids.get(p, -1) for p in g[1]]] if g[0] == "ok" else g
+                                if mrow[0] != g_ids:
+                                    ctx.tie_failure("correspondence", "griffe_mro(model, unloaded bases dropped) vs Class.mro() between loads",
+                                                    {"model": mrow[0], "impl": g, "loaded": sorted(pkgs[x] for x in loaded)}, {**base_case, "class": i})
+                    objs = [loader.modules_collection[row[0]] for row in table]
+            except BaseException as e:  # noqa: BLE001
+                if isinstance(e, KeyboardInterrupt):
+                    raise
+                ctx.property_failure({**base_case, "class": 0}, {"what": "loading the packages into one loader raised", "griffe": f"{type(e).__name__}: {e}"})
+                continue
+            ctx.observe("history_order", "base-package-first" if list(order) == sorted(order) else ("derived-first" if list(order) == sorted(order, reverse=True) else "mixed"))
+            if final_model is not None:
+                check_classes(ctx, "load-history", table, objs, which, final_model, {"load_order": [pkgs[j] for j in order], "files": files})
+            else:
+                for c in which:
+                    ctx.evaluations += 1
+                    direct_check(ctx, {**base_case, "class": c}, table, c, observe(objs[c]), orc[c])
+            finals[order] = [observe(o) for o in objs]
+        ref_order = tuple(range(n_pkgs))
+        for order, obs in finals.items():
+            if ref_order in finals and obs != finals[ref_order]:
+                c = next(i for i in which if obs[i] != finals[ref_order][i])
+                ctx.property_failure({"stream": "load-history", "table": table, "load_order": [pkgs[j] for j in order], "files": files, "class": c},
+                                     {"what": "answers depend on the order in which the packages were loaded into the loader",
+                                      "this_order": obs[c], "base_first_order": finals[ref_order][c]})
+
+
 # ------------------------------------------------------------------------------------------------ entry points
 
 def explore(ctx):
@@ -710,6 +905,8 @@ def explore(ctx):
         nonlocal t0
         ctx.notes.append(f"{name}: {time.time() - t0:.1f}s")
         t0 = time.time()
+    corpus = json.loads((Path(__file__).resolve().parents[2] / "corpus" / "C07" / "classic.json").read_text())["cases"]
+    run_tables(ctx, "corpus", [c["table"] for c in corpus])
     stream_merge(ctx)
     lap("raw-merge")
     stream_exhaustive(ctx, 5 if ctx.quick else 6)
@@ -726,6 +923,8 @@ def explore(ctx):
     lap("source-package")
     stream_cyclic_source(ctx, ctx.budget(100, 800))
     lap("cyclic-source")
+    stream_histories(ctx, ctx.budget(24, 300))
+    lap("load-history")
     if not ctx.quick:
         sample = [["class", random_ordered_table(ctx.rng, nmax=5), 1] for _ in range(25)] + \
                  [["class", random_arbitrary_table(ctx.rng), 0] for _ in range(15)] + \
@@ -759,9 +958,19 @@ def search(ctx):
             ctx.property_failure({"stream": "raw-merge", "lists": ls}, {"griffe": g, "cpython": std})
             return
     stream_source(ctx, 150, with_model=False)
+    if not ctx.prop_failures:
+        stream_histories(ctx, 60, with_model=False)
 
 
 def replay(ctx, data):
+    import shutil
+    try:
+        return _replay(ctx, data)
+    finally:
+        shutil.rmtree(ctx.scratch, ignore_errors=True)
+
+
+def _replay(ctx, data):
     case = data.get("failing_input") or {}
     if "lists" in case:
         print("lists  :", case["lists"])
@@ -778,12 +987,34 @@ def replay(ctx, data):
     c = case["class"]
     for row in table:
         print(row)
-    if "files" in case:
+    if "load_order" in case:
+        import griffe
+        root = ctx.scratch / "replay"
+        for rel, src in sorted(case["files"].items()):
+            (root / rel).parent.mkdir(parents=True, exist_ok=True)
+            (root / rel).write_text(src)
+            print(f"--- {rel}\n{src}")
+        loader = griffe.GriffeLoader(search_paths=[str(root)])
+        for step, pkg in enumerate(case["load_order"]):
+            loader.load(pkg)
+            print(f"loaded {pkg}")
+            if step < len(case["load_order"]) - 1:
+                for path, _, _ in table:
+                    if path.split(".")[0] in case["load_order"][:step + 1]:
+                        print("  between loads:", path, mro_of(loader.modules_collection[path]))
+        obj = loader.modules_collection[table[c][0]]
+    elif "files" in case:
         import griffe
         root = ctx.scratch / "replay"
         pkg = table[0][0].split(".")[0]
         write_package(root, pkg, case["files"])
-        loaded = griffe.load(pkg, search_paths=[str(root)])
+        for rel, src in sorted(case["files"].items()):
+            print(f"--- {pkg}/{rel}\n{src}")
+        try:
+            loaded = griffe.load(pkg, search_paths=[str(root)])
+        except Exception as e:  # noqa: BLE001
+            print("griffe.load raised:", type(e).__name__, e)
+            return 0
         obj = loaded[table[c][0][len(pkg) + 1:]]
     else:
         obj = build_direct(table)[c]
